@@ -276,12 +276,17 @@ impl PktGen {
 }
 
 // ---------------------------------------------------------------- ops on the real code
-struct Step { op: String, obs: String }
+struct Step { op: String, obs: String, usable: bool }
 
 async fn do_client(w: &mut World, enc: &mut Enc, run: &mut Run, now: u64, pkt: &[u8], reg: bool,
                    plan: &[(usize, Vec<Scripted>)]) -> Step {
     verif_clock::set(Some(now));
     enc.want_full(pkt);
+    // the harness's own judgement, before the call: is some uplink usable in the sense of the property text
+    // (connected, not timed out under the configured liveness window; a link whose own copy of the window
+    // disagrees with the configuration is not counted, so the judgement never depends on which one applies)
+    let usable = w.conns.iter().any(|c| c.connected && !c.is_timed_out(now)
+        && c.verif_hidden().conn_timeout_ms == w.cfg.conn_timeout_ms);
     let pre_q = w.qlens();
     let pre_conn: Vec<bool> = w.conns.iter().map(|c| c.connected).collect();
     let installed = install_scripts(w, plan);
@@ -311,6 +316,7 @@ async fn do_client(w: &mut World, enc: &mut Enc, run: &mut Run, now: u64, pkt: &
     Step {
         op: format!("Client {} {} {} {} {} {}", now, enc.dg(pkt), nat_opt(sel), boolc(reg), blist(&gated), orc),
         obs: w.obs(enc, &wire),
+        usable,
     }
 }
 
@@ -321,7 +327,7 @@ async fn do_flush(w: &mut World, enc: &Enc, run: &mut Run, now: u64, plan: &[(us
     let orc = consumed_scripts(&installed, run);
     let wire = w.drain();
     run.count("op:flush_tick");
-    Step { op: format!("FlushTick {} {}", now, orc), obs: w.obs(enc, &wire) }
+    Step { op: format!("FlushTick {} {}", now, orc), obs: w.obs(enc, &wire), usable: false }
 }
 
 fn do_regime(w: &mut World, enc: &Enc, run: &mut Run, i: usize, bps: f64) -> Step {
@@ -329,7 +335,7 @@ fn do_regime(w: &mut World, enc: &Enc, run: &mut Run, i: usize, bps: f64) -> Ste
     w.conns[i].recompute_batch_regime();
     let wire = w.drain();
     run.count("op:set_regime");
-    Step { op: format!("SetRegime {}%nat {}", i, regime_lit(w.conns[i].batch_sender.regime())), obs: w.obs(enc, &wire) }
+    Step { op: format!("SetRegime {}%nat {}", i, regime_lit(w.conns[i].batch_sender.regime())), obs: w.obs(enc, &wire), usable: false }
 }
 
 async fn inject_uplink(w: &mut World, i: usize, bytes: &[u8]) {
@@ -355,7 +361,7 @@ async fn do_reset(w: &mut World, enc: &Enc, run: &mut Run, now: u64, i: usize, k
     };
     let wire = w.drain();
     run.count("op:reset");
-    Step { op: format!("Reset {}%nat {}", i, name), obs: w.obs(enc, &wire) }
+    Step { op: format!("Reset {}%nat {}", i, name), obs: w.obs(enc, &wire), usable: false }
 }
 
 fn ctl_lit(enc: &Enc, wire: &[Vec<Vec<u8>>]) -> String {
@@ -386,7 +392,7 @@ async fn do_uplink(w: &mut World, enc: &Enc, run: &mut Run, rng: &mut Rng, now: 
     let op = if is_reg_err { format!("SetConn {}%nat false", i) }
         else if is_reg3 { format!("Reset {}%nat Reg3", i) }
         else { format!("Other {}", ctl_lit(enc, &wire)) };
-    Step { op, obs: w.obs(enc, &wire) }
+    Step { op, obs: w.obs(enc, &wire), usable: false }
 }
 
 /// the real housekeeping arm; what it did to each link (reset / regime) and the control
@@ -413,7 +419,7 @@ async fn do_house(w: &mut World, enc: &Enc, run: &mut Run, now: u64) -> Step {
         } else { "HKeep".to_string() }
     }).collect();
     run.count("op:housekeeping");
-    Step { op: format!("House [{}] {}", eff.join(";"), ctl_lit(enc, &wire)), obs: w.obs(enc, &wire) }
+    Step { op: format!("House [{}] {}", eff.join(";"), ctl_lit(enc, &wire)), obs: w.obs(enc, &wire), usable: false }
 }
 
 // ---------------------------------------------------------------- one generated case
@@ -521,7 +527,8 @@ async fn one_case(run: &mut Run, rng: &mut Rng, enc: &mut Enc, case_no: u64, pro
     }
     let init_lit: Vec<String> = inits.iter().map(|l| format!("L {} {} {} {}", regime_lit(l.regime), boolc(l.connected), l.ctr, boolc(l.io))).collect();
     let tr: Vec<String> = steps.iter().map(|s| format!("({},{})", s.op, s.obs)).collect();
-    let text = format!("Case [{}] [{}] {}", init_lit.join(";"), tr.join(";"), w.fin(enc));
+    let us: Vec<bool> = steps.iter().map(|s| s.usable).collect();
+    let text = format!("CaseU [{}] [{}] {} {}", init_lit.join(";"), tr.join(";"), w.fin(enc), blist(&us));
     let kind: &'static str = match profile { 0 => "steady", 1 => "probe", 2 => "faults", 3 => "regimes", _ => "mixed_arms" };
     if run.samples.len() < 2 && profile == 4 {
         let mut t = text.clone();
